@@ -193,6 +193,39 @@ fn oracle(log: &[Obs], stream_dropped_at: Option<usize>) -> V {
             }
         }
     }
+    // an on-demand request consumed by a check (it started it, or it arrived while the check or its
+    // reboot wait was in progress) upgrades every later reboot question of that check - and a later
+    // scheduled request does not take that back
+    for (a, b) in &busy {
+        let mut upgraded_from: Option<usize> = None; // log position after which questions must be on-demand
+        for r in reqs.iter().filter(|r| r.opts == Src::OnDemand) {
+            let (rp, reply) = r.reply.clone().unwrap();
+            let belongs = match reply.as_str() {
+                // started this very check: its decision is the start of the busy interval
+                "Started" => r.sent < *a && rp > *a && checks.iter().any(|(i, o, p)| i == a && *o == Src::OnDemand && *p),
+                "AlreadyRunning" => rp > *a && rp < *b && r.sent > *a,
+                _ => false,
+            };
+            if belongs {
+                let from = if reply == "Started" { *a } else { rp };
+                upgraded_from = Some(upgraded_from.map_or(from, |u| u.min(from)));
+            }
+        }
+        if let Some(from) = upgraded_from {
+            for (i, o) in log.iter().enumerate() {
+                if i > from && i < *b {
+                    if let Obs::RebootAllowed { opts, .. } = o {
+                        if *opts != Src::OnDemand {
+                            return bad(
+                                "reboot question asked as scheduled although an on-demand request had been accepted for this check",
+                                format!("question at #{i}, check decided at #{a}, on-demand accepted by #{from}"),
+                            );
+                        }
+                    }
+                }
+            }
+        }
+    }
     // reboot questions: on-demand only if an on-demand request (or on-demand started check) exists
     let mut wait_start: Option<usize> = None;
     for (i, o) in log.iter().enumerate() {
